@@ -222,14 +222,14 @@ class Model:
     def __init__(self):
         self.calls = 0
 
-    def run(self, requests, timeout=1800):
+    def run(self, requests, timeout=1800, driver="Driver/Main.lean"):
         if not requests:
             return []
         data = "\n".join(json.dumps(r, separators=(",", ":")) for r in requests) + "\n"
         with _Lock():
             pass  # wait for any build in progress
         try:
-            p = subprocess.run(["lake", "env", "lean", "--run", "Driver/Main.lean"], cwd=LEAN,
+            p = subprocess.run(["lake", "env", "lean", "--run", driver], cwd=LEAN,
                                input=data, capture_output=True, text=True, timeout=timeout)
         except subprocess.TimeoutExpired:
             raise Infra("model driver timed out")
